@@ -386,6 +386,8 @@ class Executor:
         if kind == "named":
             if val in self.NAMED_CONSTS:
                 return self.NAMED_CONSTS[val]
+            if re.search(r"as std::mem::SizedTypeProperties>::(ALIGN|SIZE)$", val):
+                return 8
             m = re.match(r"^ZeroSized: (.*)$", val)
             if m:
                 v = m.group(1)
